@@ -64,6 +64,15 @@ def nontrivial(res) -> bool:
     return bool((m.get("basetable") or "").strip() or (m.get("overrides") or "").strip())
 
 
+# one defect whatever the producer: the page file is named with the percent-ENCODED spelling of a non-ASCII name
+PERCENT = "dead-link:page-file-name-percent-encoded"
+
+
+def percent_encoded_on_disk(res, ref: str) -> bool:
+    f = ref.split("#")[0].split("?")[0]
+    return bool(f) and f != oc.unquote(f) and f in res["crawl"]["files"]
+
+
 def overwritten_summary_page(res, target_fn: str) -> bool:
     """the file a link leads to is a summary page (or index.html) whose name is also the page name of a root module:
     two writers share one file name"""
@@ -102,6 +111,9 @@ def classify(res, fn: str, prod: str, href: str, label, why: str) -> str:
                 sup = True
             todo += [t.objs[b] for b in c.get("bases", []) if b is not None]
         return "dead-link:view-in-hierarchy:" + ("superseded-base" if sup else "unlisted-class")
+    if why == "no-file" and href.split("#")[0].split("?")[0] in res["crawl"]["files"]:
+        # the file exists under the percent-ENCODED name the href spells out; a browser (and this crawl) asks for the decoded one
+        return PERCENT
     target = oc.link_target(t, fn, href, label)
     cause = t.cause(target)
     if cause == "documented-target":
@@ -158,7 +170,7 @@ def oracle(ctx: Ctx, res) -> None:
         ok, why = oc.resolve_ref(cr, "all-documents.html", docs[ref])
         if not ok:
             o = t.by_full.get(ref)
-            ctx.fail("dead-link:search-index:" + t.cause(o), payload, "search result %r -> %r leads nowhere (%s)" % (ref, docs[ref], why))
+            ctx.fail(PERCENT if percent_encoded_on_disk(res, docs[ref]) else "dead-link:search-index:" + t.cause(o), payload, "search result %r -> %r leads nowhere (%s)" % (ref, docs[ref], why))
     # every documented object is where links expect it
     for o in t.objs:
         if not t.documented(o) or o["url"] is None:
@@ -166,10 +178,15 @@ def oracle(ctx: Ctx, res) -> None:
         ok, why = oc.resolve_ref(cr, "index.html", o["url"])
         if not ok:
             kind = "page" if o["kind"] in "PMC" else "anchor"
-            ctx.fail("missing-%s:%s" % (kind, why), payload, "%s (%s) is documented but %r does not exist" % (o["full"], o["kind"], o["url"]))
-    for name in oc.SUMMARY_PAGES:
+            ctx.fail(PERCENT if percent_encoded_on_disk(res, o["url"]) else "missing-%s:%s" % (kind, why), payload, "%s (%s) is documented but %r does not exist" % (o["full"], o["kind"], o["url"]))
+    nroots = len([o for o in t.objs if o["parent"] is None])
+    for name in oc.SUMMARY_PAGES + (["index"] if nroots > 1 else []):
         if name + ".html" not in cr["files"]:
             ctx.fail("missing-summary-page:" + name, payload, name + ".html was not written")
+        elif cr["pages"].get(name + ".html", {}).get("object_page"):
+            # the file is there but it is the page of a module of that name: the summary page was overwritten
+            ctx.fail("summary-page-replaced:%s" % ("several-roots" if nroots > 1 else "single-root"), payload,
+                     "%s.html is the page of the root module %r, not the summary page" % (name, name))
 
 
 def run(ctx: Ctx) -> None:
